@@ -616,7 +616,6 @@ func buildClientArm(p *Program, fd *ast.FuncDecl, cl *ast.CaseClause, respObj ty
 		return arm
 	}
 	c := &pmCtx{p: p, info: info, fd: fd, zeroNil: true, params: response, m: &ParserModel{}}
-	var hsObj types.Object
 	for ; i < len(list)-1; i++ {
 		switch st := list[i].(type) {
 		case *ast.AssignStmt:
@@ -630,10 +629,11 @@ func buildClientArm(p *Program, fd *ast.FuncDecl, cl *ast.CaseClause, respObj ty
 				arm.Body = "raw"
 				continue
 			}
-			// hs = resp.Header.Values(K) ; followed by if
-			if len(st.Lhs) == 1 && hsObj != nil && identObj(info, st.Lhs[0]) == hsObj {
+			// hs = resp.Header.Values(K) (or hs := …, a variable per header) ; followed by if
+			if len(st.Lhs) == 1 && len(st.Rhs) == 1 && identObj(info, st.Lhs[0]) != nil {
 				call, ok := st.Rhs[0].(*ast.CallExpr)
 				if ok && calleeName(info, call) == "net/http.Header.Values" && len(call.Args) == 1 && strings.HasPrefix(types.ExprString(call.Fun), rn+".Header.") {
+					hsObj := identObj(info, st.Lhs[0])
 					row := &ParamRow{In: "header", Pos: st.Pos()}
 					arm.Rows = append(arm.Rows, row)
 					k, okK := c.constStr(call.Args[0])
@@ -682,8 +682,7 @@ func buildClientArm(p *Program, fd *ast.FuncDecl, cl *ast.CaseClause, respObj ty
 			if gd, ok := st.Decl.(*ast.GenDecl); ok && gd.Tok == token.VAR && len(gd.Specs) == 1 {
 				vs := gd.Specs[0].(*ast.ValueSpec)
 				if len(vs.Names) == 1 && len(vs.Values) == 0 {
-					hsObj = info.Defs[vs.Names[0]]
-					continue
+					continue // a shared header-values variable; each lookup is identified by its call
 				}
 			}
 			und("unexpected declaration")
